@@ -187,7 +187,10 @@ class RCA_Supervised(RCA):
                     ' version 0.6.3 and will be removed in 0.7.0'
                     '', FutureWarning)
       n_chunks = num_chunks
-    self.num_chunks = 'deprecated'  # To avoid no_attribute error
+    # To avoid no_attribute error (an unused alias keeps the sentinel object
+    # it was given: clone compares parameters by identity)
+    self.num_chunks = (num_chunks if num_chunks == 'deprecated'
+                       else 'deprecated')
     self.n_chunks = n_chunks
     self.chunk_size = chunk_size
     self.random_state = random_state
